@@ -212,6 +212,56 @@ def reset_writer_state():
             cur.update(v)
 
 
+# --------------------------------------------------------------------------- minimisation
+_MIN_CACHE = {}
+
+
+def run_minimised(key, run_case, smaller, acc, max_cache=4000):
+    """Deviation minimisation (DESIGN 6.1), local to the worker: run `key`; every violation is
+    re-attributed to the smallest sub-case (deviations dropped one at a time) on which the same
+    sub-oracle still fails, so that the fingerprint names the minimal failing input even when
+    the run is capped before the cross-shard pruning.
+      run_case(key, acc)   runs one case, recording counters and violations in acc
+      smaller(key)         -> iterable of keys with one deviation less
+    Counters of the extra sub-case runs are discarded."""
+    from mc.kernel.runner import Acc
+
+    scratch = Acc()
+    run_case(key, scratch)
+    acc.c.update(scratch.c)
+    acc.outcomes.update(scratch.outcomes)
+    for smp in scratch.samples:
+        acc.sample(smp)
+    if not scratch.viol:
+        return
+
+    def viols_of(k):
+        if k not in _MIN_CACHE:
+            if len(_MIN_CACHE) > max_cache:
+                _MIN_CACHE.clear()
+            a = Acc()
+            run_case(k, a)
+            _MIN_CACHE[k] = {fp: e["cases"][0] for fp, e in a.viol.items()}
+        return _MIN_CACHE[k]
+
+    _MIN_CACHE[key] = {fp: e["cases"][0] for fp, e in scratch.viol.items()}
+    for fp, e in scratch.viol.items():
+        sub = fp.rpartition("|")[0]
+        cur_key, cur_fp, cur = key, fp, e["cases"][0]
+        progress = True
+        while progress:
+            progress = False
+            for k2 in smaller(cur_key):
+                hit = [(f2, c2) for f2, c2 in viols_of(k2).items() if f2.rpartition("|")[0] == sub]
+                if hit:
+                    cur_key, (cur_fp, cur) = k2, hit[0]
+                    progress = True
+                    break
+        if cur_fp != fp:
+            acc.c["violations_minimised"] += 1
+        acc.violation(cur_fp, cur["what"], cur["case"])
+
+
 def pristine(name):
     """import-time value of a module-level keyword set of unified_planning.io.pddl_writer"""
     if not _PRISTINE:
@@ -355,6 +405,31 @@ def temporal_compare(spec_a, spec_b, ren, samples, max_diffs=1):
     for bn in db:
         if bn not in img:
             diff("dur-action-extra", "B has durative action %r without counterpart" % bn, {"action": bn})
+    # action costs of durative actions (metric "costs": per action expression or default)
+    ma, mb = spec_a.get("metric"), spec_b.get("metric")
+    if ma is not None and mb is not None and (ma[0] in ("costs", "len") or mb[0] in ("costs", "len")):
+        def cost_of(m, name):
+            if m[0] == "len":
+                return ("i", 1)
+            if m[0] != "costs":
+                return None
+            return dict(m[1]).get(name, m[2])
+
+        for an, a in da.items():
+            bb = db.get(ren.a(an))
+            if bb is None:
+                continue
+            ea_, eb_ = cost_of(ma, an), cost_of(mb, ren.a(an))
+            pa = [pn for pn, _ in a["params"]]
+            pb = [pn for pn, _ in bb["params"]]
+            for sa, sb in samples:
+                for bind in _bindings(A, a["params"]):
+                    bind_b = dict(zip(pb, [ren.val(bind[p]) for p in pa]))
+                    va = ("none", None) if ea_ is None else _val(ea_, A.interp(sa, bind))
+                    vb = ("none", None) if eb_ is None else _val(eb_, B.interp(sb, bind_b))
+                    n_eval += 1
+                    if va[0] != vb[0] or (va[0] == "v" and not same(va[1], vb[1])):
+                        diff("dur-action-cost", "cost of %s%s in %s: A=%s B=%s" % (an, list(bind.values()), _sh(sa), va[1], vb[1]), {"action": an})
     # timed initial literals / effects
     ta, tb = {}, {}
     for src, dst in ((spec_a, ta), (spec_b, tb)):
